@@ -7,41 +7,29 @@ from sa.model import AnalysisError
 from sa.terms import flatten_concat, merge_consts, parts_text
 from .common import assume_from, final_writes, guards_text, describe
 
-META = {
-    'level': 'other',
-    'explanation': (
-        'Static decision of the framing skeleton of Payload.encode/decode: the value returned '
-        'by encode is computed as a provenance term for 0, 1 and 2 loop iterations and compared '
-        'with "text-channel encodings joined by single U+001E, in list order"; every path of '
-        'decode that builds packets must carry the refusal guard in its exact integer form '
-        '(N - limit - 1 >= 0 refuses, N being the number of parts of the very string that is '
-        'split), self.packets is only ever written with [] or the complete list, the d= variant '
-        'feeds the same split, decode is loop-free apart from the comprehension and raises only '
-        'ValueError. Not decided: value-level round trip, what parse_qs does to a body.'),
-    'trusted_base': [
-        'str.split(sep) returns count(sep)+1 parts in order',
-        'Packet.encode(b64=True) is non-empty text (first char is a type digit or b) - C01',
-        'urllib.parse.parse_qs decodes the form value',
-    ],
-    'not_decided': ['decode(encode(ps)) == ps for all payloads without U+001E (values)',
-                    'form decoding by urllib.parse.parse_qs (library semantics)'],
-    'assumptions': [],
-}
+from .meta import meta
+META = meta('C02', level='other', extra_tb=['str.split(sep) returns count(sep)+1 parts in order', 'urllib.parse.parse_qs decodes the form value'])
 
 SEP = '\x1e'
 
 
-def check(A):
+def check(A, only_decode=False, prefix='C02'):
     m = A.model
     enc = A.func('payload.Payload.encode')
     dec = A.func('payload.Payload.decode')
     pl = m.module('payload')
     limit = m.const_value(pl, 'Payload.max_decode_packets')
-    A.check(limit == 16, 'C02.limit', 'the default per-payload packet limit is 16',
+    A.check(limit == 16, prefix + '.limit', 'the default per-payload packet limit is 16',
             'src/engineio/payload.py', key='limit-default', detail=repr(limit),
             behaviour='bodies with a different number of packets than documented are refused/accepted')
 
     # ------------------------------------------------------------- encode
+    if not only_decode:
+        _encode_part(A, m, enc)
+    _decode_part(A, m, dec, prefix)
+
+
+def _encode_part(A, m, enc):
     elem0 = '_elem(self.packets, 0).encode(b64=True)'
     elem1 = '_elem(self.packets, 1).encode(b64=True)'
     nonempty = Kind('str', empty=False, truthy=True)
@@ -84,15 +72,17 @@ def check(A):
     st = C01.constructor_cases(sub, msg)
     C01.encode_cases(A, st, prefix='C02')
 
-    # ------------------------------------------------------------- decode
+
+
+def _decode_part(A, m, dec, prefix):
     if any(isinstance(n, ast.While) for n in ast.walk(dec.node)):
-        A.violated('C02.total', 'decode contains no unbounded loop', A.site(dec), key='decode-while',
+        A.violated(prefix + '.total', 'decode contains no unbounded loop', A.site(dec), key='decode-while',
                    behaviour='decode may hang on adversarial input')
     else:
-        A.ok('C02.total', 'decode contains no while loop (only iteration over the split result)',
+        A.ok(prefix + '.total', 'decode contains no while loop (only iteration over the split result)',
              A.site(dec))
     rs = A.resolver.raises_of(dec, dec.cls)
-    A.check(rs <= {'ValueError'}, 'C02.total',
+    A.check(rs <= {'ValueError'}, prefix + '.total',
             'every explicit raise below Payload.decode is a ValueError', A.site(dec),
             key='decode-raises', detail=sorted(rs),
             behaviour='a malformed body fails with an error the callers do not expect')
@@ -106,7 +96,7 @@ def check(A):
             for p in ps:
                 w = [e for e in p.events if e.kind == 'write' and txt(e.target) == 'self.packets']
                 A.check(p.outcome == 'return' and w and all(txt(e.expr) == '[]' for e in w),
-                        'C02.empty', 'an empty body decodes to no packets', A.site(dec),
+                        prefix + '.empty', 'an empty body decodes to no packets', A.site(dec),
                         key='decode-empty', detail=describe(p))
             continue
         builds = 0
@@ -115,13 +105,13 @@ def check(A):
             writes = [e for e in p.events if e.kind == 'write' and txt(e.target) == 'self.packets']
             appends = [e for e in p.events if e.kind == 'call' and
                        txt(e.expr).startswith('self.packets.')]
-            A.check(not appends, 'C02.all-or-nothing',
+            A.check(not appends, prefix + '.all-or-nothing',
                     'self.packets is never filled incrementally', A.site(dec),
                     key='decode-incremental', detail=[txt(e.expr) for e in appends],
                     behaviour='a failure in one packet lets the earlier packets of the body through')
             final = [e for e in writes if txt(e.expr) != '[]']
             if p.outcome == 'raise':
-                A.check(not final, 'C02.all-or-nothing',
+                A.check(not final, prefix + '.all-or-nothing',
                         'a refused body leaves no packets behind', A.site(dec),
                         key='decode-raise-leaves', detail=describe(p),
                         behaviour='packets of a refused body are acted upon')
@@ -130,7 +120,7 @@ def check(A):
                     refusals += 1
                 continue
             if not final:
-                A.violated('C02.decode', 'a non-empty body yields its packets', A.site(dec),
+                A.violated(prefix + '.decode', 'a non-empty body yields its packets', A.site(dec),
                            key='decode-nothing', detail=describe(p))
                 continue
             builds += 1
@@ -138,27 +128,27 @@ def check(A):
             c = match('[packet.Packet(encoded_packet=_x) for _x in _parts]', lst)
             if c is None or not isinstance(lst, ast.ListComp) or len(lst.generators) != 1 or \
                     lst.generators[0].ifs:
-                A.undecided('C02.decode', 'packet list construction recognised', A.site(dec),
+                A.undecided(prefix + '.decode', 'packet list construction recognised', A.site(dec),
                             'self.packets = %s' % txt(lst))
                 continue
             parts = c['parts']
             sp = match('_s.split(_sep)', parts)
             if sp is None:
-                A.undecided('C02.decode', 'the packet list iterates a split result in order',
+                A.undecided(prefix + '.decode', 'the packet list iterates a split result in order',
                             A.site(dec), txt(parts))
                 continue
-            A.check(match(repr(SEP), sp['sep']) is not None, 'C02.separator',
+            A.check(match(repr(SEP), sp['sep']) is not None, prefix + '.separator',
                     'decode splits on the separator encode inserts (U+001E)', A.site(dec),
                     key='decode-separator', detail=txt(sp['sep']),
                     behaviour='encoder and decoder disagree on the packet boundary')
             S = txt(sp['s'])
             is_form = any(g == "encoded_payload.startswith('d=')" for g in guards_text(p))
             if is_form:
-                A.check(S == "urllib.parse.parse_qs(encoded_payload)['d'][0]", 'C02.form',
+                A.check(S == "urllib.parse.parse_qs(encoded_payload)['d'][0]", prefix + '.form',
                         "the d= variant is unwrapped and split like a plain body", A.site(dec),
                         key='decode-form', detail=S)
             else:
-                A.check(S == 'encoded_payload', 'C02.plain', 'a plain body is split as it is',
+                A.check(S == 'encoded_payload', prefix + '.plain', 'a plain body is split as it is',
                         A.site(dec), key='decode-plain', detail=S)
             # the refusal guard, in integer form over N = number of parts of S
             symmap = {'len(%s)' % txt(parts): ('N', 0),
@@ -175,7 +165,7 @@ def check(A):
                     if f == ({'N': -1, 'M': 1}, 0):
                         break
             ok = found is not None and found[0] == ({'N': -1, 'M': 1}, 0)
-            A.check(ok, 'C02.limit-guard',
+            A.check(ok, prefix + '.limit-guard',
                     'packets are built only if the number of parts of the split string is <= '
                     'max_decode_packets (%s body)' % ('d=' if is_form else 'plain'),
                     A.site(dec, found[1].node if found else None),
@@ -185,9 +175,9 @@ def check(A):
                             ['no guard on the number of parts of %s' % S]) + describe(p),
                     behaviour='a body with limit+1 packets is processed, or one with exactly the '
                               'limit is refused')
-        A.check(builds >= 2, 'C02.decode', 'both body variants (plain, d=) build packets',
+        A.check(builds >= 2, prefix + '.decode', 'both body variants (plain, d=) build packets',
                 A.site(dec), key='decode-variants', detail='%d building paths' % builds)
-        A.check(refusals >= 1, 'C02.limit-guard', 'an over-long body is refused with ValueError',
+        A.check(refusals >= 1, prefix + '.limit-guard', 'an over-long body is refused with ValueError',
                 A.site(dec), key='decode-refusal',
                 behaviour='the packet count limit is not enforced')
     A.sample({'case': 'decode(plain body)', 'required_guard': 'M - N >= 0 on every building path'})
